@@ -618,6 +618,7 @@ DIRECTED = [
     'with fp.REAL:\n        a = x + y\n        b = x * y\n        c = -x\n        d = abs(y)\n        e = a * b - c\n    return (a, b, c, d, e, fp.round(e))',
     's = 0\n    for e in xs:\n        s = s + e\n    t = x\n    for i in range(3):\n        t = t * 2 + i\n    k = 0\n    while k < 3:\n        with fp.REAL:\n            y = y + y\n        with fp.INTEGER:\n            k = k + 1\n    return (s, t, y)',
     'if fp.isnan(x) or fp.isinf(x):\n        r = 0\n    elif x == 0:\n        r = x\n    else:\n        with fp.REAL:\n            e = fp.logb(x)\n        r = e\n        if e < 0:\n            r = x * 4\n    if y > 1:\n        q = y - 1\n    else:\n        q = y\n    return (r, q)',
+    'with I8:\n        a = y * 0.25\n        b = x / 4 + 0.5\n    with Q2:\n        c = x * 0.3\n        d = y / 16\n    return (a, b, c, d)',
     'with Q2:\n        a = fp.round(x)\n        with P3:\n            b = a * y\n        c = a + b\n    with S3:\n        d = fp.floor(c) - fp.ceil(x)\n    return (a, b, c, d, (a if a < b else d))',
 ]
 
